@@ -22,7 +22,9 @@ use tokio::time::timeout as tokio_timeout;
 
 use super::parse_bool_option;
 
-const MAX_DEALER_SEND_BUFFER_PARTS: usize = 10240;
+// One more part (the final one) follows the buffered ones; the whole message has to fit the
+// frame container, as for send_multipart().
+const MAX_DEALER_SEND_BUFFER_PARTS: usize = FrameBatch::MAX_USER_FRAMES - 1;
 
 #[derive(Debug)]
 enum DealerSendTransaction {
@@ -481,6 +483,16 @@ impl ISocket for DealerSocket {
   async fn recv_multipart(&self) -> Result<FrameBatch, ZmqError> {
     if !self.core.is_running() {
       return Err(ZmqError::InvalidState("Socket is closing".into()));
+    }
+    // A message partly read with recv(): hand out the rest of it, not the next message.
+    if let Some(rest) = self.frame_recv_buffer.lock().take() {
+      if !rest.is_empty() {
+        let mut out = FrameBatch::new();
+        for f in rest {
+          out.push(f);
+        }
+        return Ok(out);
+      }
     }
     let rcvtimeo_opt: Option<Duration> = self.core.core_state.read().options.rcvtimeo;
     let (_, batch) = self.ingress_engine.recv_logical_message(rcvtimeo_opt).await?;
